@@ -116,7 +116,7 @@ func init() {
 		plain:       always,
 		shrinkTime:  90 * time.Second,
 		search: func(s *propSpec, b *build, a *agg) {
-			runs := int64(500000)
+			runs := int64(800000)
 			if tier == "thorough" {
 				runs = 40000000
 			}
